@@ -683,9 +683,28 @@ fn run_shard(
             }
         };
         if cs == u64::MAX {
+            // died while setting a unit up (before its first case).  If the panic
+            // site is in the subject's sources (a fidget crate), the subject crashed
+            // during set-up - e.g. building the script engine, compiling a scene -
+            // which is attributed to the unit as a whole; the unit is skipped.
+            // Anything else is a fault of the harness itself.
+            let joined = err_tail.join(" | ");
+            let in_subject = joined.split("panicked at ").skip(1).any(|t| {
+                let site = t.split_whitespace().next().unwrap_or("");
+                site.contains("/fidget-") && !site.contains("/harness/")
+            });
+            if in_subject && !skip.contains(&(cu, u64::MAX)) {
+                out.crashed_cases.push((cu, u64::MAX, format!("{status} during the set-up of the unit: {}", err_tail.last().cloned().unwrap_or_default())));
+                skip.push((cu, u64::MAX));
+                if out.crashed_cases.len() > 40 {
+                    out.machinery_error = Some(format!("worker {shard}: more than 40 process crashes"));
+                    return out;
+                }
+                from_unit = cu as usize + 1;
+                continue;
+            }
             out.machinery_error = Some(format!(
-                "worker {shard} died ({status}) outside any case (unit {cu}): {}",
-                err_tail.join(" | ")
+                "worker {shard} died ({status}) outside any case (unit {cu}): {joined}"
             ));
             return out;
         }
@@ -702,6 +721,12 @@ fn run_shard(
         };
         out.crashed_cases.push((cu, cs, how));
         skip.push((cu, cs));
+        // a subject that hangs costs a full watchdog period per case: after two
+        // hangs this shard stops (the hang is reported; the run is marked capped)
+        if was_hung && out.crashed_cases.iter().filter(|c| c.2.starts_with("watchdog:")).count() >= 2 {
+            out.capped_at = Some(cu);
+            return out;
+        }
         if out.crashed_cases.len() > 40 {
             out.machinery_error = Some(format!("worker {shard}: more than 40 process crashes"));
             return out;
